@@ -273,10 +273,22 @@ pub fn zstd_record(args: &Args) -> i32 {
     // the size classes of F: empty, one byte, mixtures of wrappers - and files that do not compress at
     // all, a few zstd blocks long (every byte string F, the property says)
     let noise_sizes: Vec<u64> = if args.get("noise").is_some() { vec![200_000, 700_000, 3 << 20] } else { vec![] };
-    for fi in 0..nfiles + noise_sizes.len() {
-        let segs = if fi >= nfiles { json!([{"c":"junk","n":noise_sizes[fi - nfiles]}]) }
+    // ... and files that are larger than their expanded form: noise that went through a compressor
+    let swollen: Vec<Vec<u8>> = if args.get("noise").is_some() {
+        [1, 9].iter().map(|&level| {
+            let noise: Vec<u8> = (0..300_000).map(|_| rng.below(256) as u8).collect();
+            let mut f = crate::gen::junk(&mut rng, 20);
+            f.extend_from_slice(&crate::gen::wrap_zlib(&crate::gen::zlib_raw(&noise, level, 0, 15, 8), &noise, 1));
+            f
+        }).collect()
+    } else { vec![] };
+    for fi in 0..nfiles + noise_sizes.len() + swollen.len() {
+        let segs = if fi >= nfiles + noise_sizes.len() { json!("noise through zlib: the file is larger than its expanded form") }
+                   else if fi >= nfiles { json!([{"c":"junk","n":noise_sizes[fi - nfiles]}]) }
                    else if fi == 0 { json!([]) } else if fi == 1 { json!([{"c":"junk","n":1}]) } else { random_segs_small(&mut rng) };
-        let b = build_file(&segs, &big, &small, &mut rng);
+        let b = if fi >= nfiles + noise_sizes.len() {
+            Built { bytes: swollen[fi - nfiles - noise_sizes.len()].clone(), expect: None, plains: vec![], desc: segs.clone() }
+        } else { build_file(&segs, &big, &small, &mut rng) };
         let f = &b.bytes;
         let expanded = match guarded(|| expand_zlib_chunks(f, 0)) { Ok(Ok(x)) => x, _ => continue };
         let size = expanded.len();
@@ -308,6 +320,14 @@ pub fn zstd_record(args: &Args) -> i32 {
             ("raw-file", f.clone()),
             ("expanded-not-framed", expanded.clone()),
         ];
+        // a proper prefix of a frame is not a frame, wherever it is cut (zstd blocks, raw blocks and the
+        // chunks inside them end at places of their own)
+        let cuts: Vec<usize> = if z.len() <= 400 { (1..z.len()).collect() } else {
+            let mut c: Vec<usize> = (1..40).chain(z.len() - 40..z.len()).collect();
+            for _ in 0..120 { c.push(1 + rng.below(z.len() as u64 - 1) as usize); }
+            c
+        };
+        for k in cuts { variants.push(("cut", z[..k].to_vec())); }
         let mut t = z.clone();
         t.extend_from_slice(b"trailing");
         variants.push(("trailing-bytes", t));
@@ -396,9 +416,15 @@ pub fn abi_record(args: &Args) -> i32 {
     }
     let mut out = std::io::BufWriter::new(std::fs::File::create(args.req("out")).unwrap());
     let mut run = 0;
-    for fi in 0..nfiles {
-        let segs = if fi == 0 { json!([]) } else if fi == 1 { json!([{"c":"junk","n":2}]) } else { random_segs_small(&mut rng) };
-        let b = build_file(&segs, &big, &small, &mut rng);
+    for fi in 0..nfiles + 1 {
+        let segs = if fi == nfiles { json!("noise through zlib: the file is larger than its expanded form") }
+                   else if fi == 0 { json!([]) } else if fi == 1 { json!([{"c":"junk","n":2}]) } else { random_segs_small(&mut rng) };
+        let b = if fi == nfiles {
+            let noise: Vec<u8> = (0..250_000).map(|_| rng.below(256) as u8).collect();
+            let mut f = crate::gen::junk(&mut rng, 20);
+            f.extend_from_slice(&crate::gen::wrap_zlib(&crate::gen::zlib_raw(&noise, 1, 0, 15, 8), &noise, 1));
+            Built { bytes: f, expect: None, plains: vec![], desc: segs.clone() }
+        } else { build_file(&segs, &big, &small, &mut rng) };
         let f = &b.bytes;
         let needed = match guarded(|| compress_zstd(f, 0)) { Ok(Ok(z)) => z.len(), _ => continue };
         let bound = zstd::zstd_safe::compress_bound(guarded(|| expand_zlib_chunks(f, 0)).ok().and_then(|r| r.ok()).map(|x| x.len()).unwrap_or(0));
@@ -519,16 +545,29 @@ pub fn abi_record(args: &Args) -> i32 {
                             "rs": if rs == 0xDEAD_BEEF_DEAD_BEEF { 0 } else { rs.min(1 << 30) },"guards":g.guards_intact(),"valid":valid,
                             "frame": if is_good { "valid" } else { "damaged" }, "after": if is_good { "damaged" } else { "" }}));
                     }
-                    // and the compressing wrapper after all that
-                    let cap = bound + 100;
-                    let mut g = Guarded::new(cap);
-                    let mut rs: u64 = 0xDEAD_BEEF_DEAD_BEEF;
-                    let p = g.ptr();
-                    let status = guarded(|| unsafe { WrapperCompressZip(f.as_ptr(), f.len() as u64, p, cap as u64, &mut rs as *mut u64) });
-                    let (st, unwound) = match status { Ok(s) => (s, false), Err(_) => (-99, true) };
-                    let valid = st == 0 && (rs as usize) <= cap && matches!(guarded(|| decompress_zstd(g.data(rs as usize), 1 << 27)), Ok(Ok(ref x)) if x == f);
-                    rep.push(json!({"call":"Compress","cap":cap,"status":st,"unwound":unwound,"rs_set": rs != 0xDEAD_BEEF_DEAD_BEEF,
-                        "rs": if rs == 0xDEAD_BEEF_DEAD_BEEF { 0 } else { rs.min(1 << 30) },"guards":g.guards_intact(),"valid":valid,"after":"damaged"}));
+                    // and the compressing wrapper after all that: once with a buffer that is too small (the
+                    // caller's usual "try, enlarge, retry"), then with one that is large enough
+                    for cap in [if needed > 1 { 1usize } else { 0 }, needed.saturating_sub(1), bound + 100] {
+                        let mut g = Guarded::new(cap);
+                        let mut rs: u64 = 0xDEAD_BEEF_DEAD_BEEF;
+                        let p = g.ptr();
+                        let status = guarded(|| unsafe { WrapperCompressZip(f.as_ptr(), f.len() as u64, p, cap as u64, &mut rs as *mut u64) });
+                        let (st, unwound) = match status { Ok(s) => (s, false), Err(_) => (-99, true) };
+                        let valid = st == 0 && (rs as usize) <= cap && matches!(guarded(|| decompress_zstd(g.data(rs as usize), 1 << 27)), Ok(Ok(ref x)) if x == f);
+                        rep.push(json!({"call":"Compress","cap":cap,"status":st,"unwound":unwound,"rs_set": rs != 0xDEAD_BEEF_DEAD_BEEF,
+                            "rs": if rs == 0xDEAD_BEEF_DEAD_BEEF { 0 } else { rs.min(1 << 30) },"guards":g.guards_intact(),"valid":valid,"after":"damaged and refused calls"}));
+                    }
+                    // the frame just made, into a buffer one byte short, then into one that fits exactly
+                    for cap in [need2.saturating_sub(1), need2] {
+                        let mut g = Guarded::new(cap);
+                        let mut rs: u64 = 0xDEAD_BEEF_DEAD_BEEF;
+                        let p = g.ptr();
+                        let status = guarded(|| unsafe { WrapperDecompressZip(good.as_ptr(), good.len() as u64, p, cap as u64, &mut rs as *mut u64) });
+                        let (st, unwound) = match status { Ok(s) => (s, false), Err(_) => (-99, true) };
+                        let valid = st == 0 && (rs as usize) <= cap && g.data(rs as usize) == &f[..];
+                        rep.push(json!({"call":"Decompress","cap":cap,"need":need2,"status":st,"unwound":unwound,"rs_set": rs != 0xDEAD_BEEF_DEAD_BEEF,
+                            "rs": if rs == 0xDEAD_BEEF_DEAD_BEEF { 0 } else { rs.min(1 << 30) },"guards":g.guards_intact(),"valid":valid,"frame":"valid","after":"refused calls"}));
+                    }
                     serde_json::to_vec(&rep).unwrap()
                 });
                 match iso {
